@@ -208,8 +208,12 @@ type lfEngine struct {
 	// from the input at a symbolic index is a source "ld<sym>" (its index is in elemLoads), a
 	// read of a constant package-level table is tbl:<name>(index bits), and []rune→string keeps
 	// the identity of the slice
-	extract     bool
-	nMade       int
+	extract bool
+	nMade   int
+	// wrapExact: narrowing conversions and narrow arithmetic keep the wrapped value as a linear
+	// form (x − W·k), single-bit masks decompose their operand (used for value statements
+	// about small arithmetic helpers, not for the bounds analysis)
+	wrapExact   bool
 	c           *Ctx
 	symNames    []string
 	nextID      int
@@ -712,6 +716,17 @@ func (e *lfEngine) normalise(st *lfState, x Lin, t types.Type, name string) Lin 
 	}
 	if entails(st.cons, geq(x, linConst(lo))) && entails(st.cons, leq(x, linConst(hi))) {
 		return x
+	}
+	if e.wrapExact {
+		// modular arithmetic kept exact: within one modulus of the type's range the result is
+		// x − W·k for the unique k ∈ {−1, 0, 1} that puts it in range
+		w := hi - lo + 1
+		if entails(st.cons, geq(x, linConst(lo-w))) && entails(st.cons, leq(x, linConst(hi+w))) {
+			k := linSym(e.newSym("wrapk(" + e.linString(x) + ")"))
+			res := x.add(k.scale(w), -1)
+			st.cons = append(st.cons, geq(k, linConst(-1)), leq(k, linConst(1)), geq(res, linConst(lo)), leq(res, linConst(hi)))
+			return res
+		}
 	}
 	if e.bits {
 		// canonical name: what wraps, not how the source spells it
@@ -2038,6 +2053,20 @@ func (e *lfEngine) doUnOp(fr *lfFrame, st *lfState, x *ssa.UnOp) {
 			return
 		}
 		fr.env[x] = e.fresh(st, x.Type(), x.Name())
+	case token.XOR:
+		// bitwise complement: (2^w − 1) − x for an unsigned type, −x − 1 for a signed one
+		if e.wrapExact && isIntType(x.Type()) {
+			if lo, hi, ok := intRange(x.Type()); ok {
+				v := e.asInt(st, e.val(fr, st, x.X), x.X.Type(), x.Name())
+				if lo == 0 {
+					fr.env[x] = vInt{E: v.scale(-1).addConst(hi)}
+				} else {
+					fr.env[x] = vInt{E: v.scale(-1).addConst(-1)}
+				}
+				return
+			}
+		}
+		fr.env[x] = e.fresh(st, x.Type(), x.Name())
 	default:
 		fr.env[x] = e.fresh(st, x.Type(), x.Name())
 	}
@@ -2263,6 +2292,25 @@ func (e *lfEngine) doBinOp(fr *lfFrame, st *lfState, x *ssa.BinOp) {
 		if !isM {
 			m, isM = a.isConst()
 			other = b
+		}
+		if isM && m > 0 && m&(m-1) == 0 && e.wrapExact && nonNeg(other) {
+			// one bit: x & 2^k = 2^k·t with x = 2^(k+1)·q + 2^k·t + r, t ∈ {0,1}, 0 ≤ r < 2^k
+			tt := linSym(e.newSym("bit(" + name + ")"))
+			q := linSym(e.newSym("hi(" + name + ")"))
+			rm := linSym(e.newSym("lo(" + name + ")"))
+			sum := q.scale(2*m).add(tt.scale(m), 1).add(rm, 1)
+			st.cons = append(st.cons, geq(tt, linConst(0)), leq(tt, linConst(1)), geq(q, linConst(0)), geq(rm, linConst(0)), leq(rm, linConst(m-1)), geq(other, sum), leq(other, sum))
+			fr.env[x] = vInt{E: tt.scale(m)}
+			return
+		}
+		if isM && m > 0 && (m+1)&m == 0 && e.wrapExact && nonNeg(other) {
+			// low mask: x & (2^k − 1) = r with x = 2^k·q + r, 0 ≤ r < 2^k
+			q := linSym(e.newSym("hi(" + name + ")"))
+			rm := linSym(e.newSym("lo(" + name + ")"))
+			sum := q.scale(m + 1).add(rm, 1)
+			st.cons = append(st.cons, geq(q, linConst(0)), geq(rm, linConst(0)), leq(rm, linConst(m)), geq(other, sum), leq(other, sum))
+			fr.env[x] = vInt{E: rm}
+			return
 		}
 		if isM && m >= 0 {
 			s := linSym(e.newSym(name))
